@@ -40,12 +40,12 @@ type QResult struct {
 
 // Unit is everything needed to discharge the obligations of one function under verification.
 type Unit struct {
-	Name    string
-	tb      *TB
-	assumes []*Term
-	queries []*Query
+	Name      string
+	tb        *TB
+	assumes   []*Term
+	queries   []*Query
 	timeoutMs int
-	hints   []*Term // extra constraints used only when asking for a counterexample (make models replayable)
+	hints     []*Term // extra constraints used only when asking for a counterexample (make models replayable)
 }
 
 type solverSpec struct {
